@@ -283,16 +283,31 @@ theorem iTXt_roundtrip_compressed (z : ZCodec) (c : ITXt) (body : Bytes)
     parseITXt body = .ok (c.compress z).1 := Png.iTXt_roundtrip_compressed z c body hc h
 
 /-- iTXt with `compressed = false` while the text is still in the compressed state: `encode` inflates
-the payload and writes it without checking that it is UTF-8; the decoder reads it back as plain text
-if it is, and refuses the chunk (`Unrepresentable`) if it is not.  (Whether writing such a chunk is
-acceptable is property C17's business: `Png.C17.C17_roundtrip_itxt_partial` and its counterexample.) -/
+the payload and accepts the chunk only when that is valid UTF-8; the text is then read back as plain
+text (the check is the repair of the defect property C17 found: /repo commit 6a09087) … -/
 theorem iTXt_roundtrip_inflated (z : ZCodec) (c : ITXt) (v body : Bytes)
     (hc : c.compressed = false) (hs : c.text = .compressed v) (h : c.encodeBody z = .ok body) :
-    ∃ raw, z.decompress v = some raw ∧
-      parseITXt body = match utf8Decode raw with
-        | none => .err .unrepresentable
-        | some s => .ok { c with text := .uncompressed s } :=
+    ∃ raw s, z.decompress v = some raw ∧ utf8Decode raw = some s ∧
+      parseITXt body = .ok { c with text := .uncompressed s } :=
   Png.iTXt_roundtrip_inflated z c v body hc hs h
+
+/-- … and otherwise the chunk is refused: `CompressionError` when the payload does not inflate,
+`Unrepresentable` when it inflates to something that is not UTF-8 -/
+theorem iTXt_inflated_refused (z : ZCodec) (c : ITXt) (v : Bytes) (data : Bytes)
+    (hk : encodeKeyword c.keyword = .ok data) (hl : isAsciiStr c.languageTag = true)
+    (hln : NulFree c.languageTag) (htn : NulFree c.translatedKeyword)
+    (hc : c.compressed = false) (hs : c.text = .compressed v) :
+    (z.decompress v = none → c.encodeBody z = .error .compressionError) ∧
+    (∀ raw, z.decompress v = some raw → utf8Decode raw = none → c.encodeBody z = .error .unrepresentable) :=
+  Png.iTXt_inflated_refused z c v data hk hl hln htn hc hs
+
+/-- all three iTXt cases at once: whatever `encode` accepts is read back with the same keyword, flag,
+language tag, translated keyword and text -/
+theorem iTXt_roundtrip_text (z : ZCodec) (hz : z.Ok) (c : ITXt) (body : Bytes)
+    (h : c.encodeBody z = .ok body) :
+    ∃ c', parseITXt body = .ok c' ∧ c'.keyword = c.keyword ∧ c'.compressed = c.compressed ∧
+      c'.languageTag = c.languageTag ∧ c'.translatedKeyword = c.translatedKeyword ∧
+      c'.getText z = c.getText z := Png.iTXt_roundtrip_text z hz c body h
 
 /-- U+0000 in a keyword (all three kinds), in the language tag or in the translated keyword (iTXt):
 `encode` answers with an error — the old behaviour (D16) of writing a chunk that reads back as
@@ -350,6 +365,11 @@ example : (TEXt.mk "Title" "a\x00é").encodeBody = .ok [0x54, 0x69, 0x74, 0x6C, 
     NulFree "Title" := by decide
 example : (ITXt.mk "k" false "en" "é" (.uncompressed "€")).encodeBody toyCodec =
     .ok [0x6B, 0, 0, 0, 0x65, 0x6E, 0, 0xC3, 0xA9, 0, 0xE2, 0x82, 0xAC] := by decide
+-- a compressed payload that is no text, to be written uncompressed: refused; one that is: written
+example : (ITXt.mk "k" false "" "" (.compressed [0x78, 0xFF])).encodeBody toyCodec = .error .unrepresentable ∧
+    (ITXt.mk "k" false "" "" (.compressed [0x00])).encodeBody toyCodec = .error .compressionError ∧
+    (ITXt.mk "k" false "" "" (.compressed [0x78, 0xC3, 0xA9])).encodeBody toyCodec =
+      .ok [0x6B, 0, 0, 0, 0, 0, 0xC3, 0xA9] := by decide
 -- the former D16 counterexamples are now refusals
 example : (TEXt.mk "a\x00b" "x").encodeBody = .error .unrepresentable ∧ ¬ NulFree "a\x00b" := by decide
 example : (ZTXt.mk "a\x00b" (.compressed [1])).encodeBody toyCodec = .error .unrepresentable := by decide
